@@ -4,6 +4,7 @@ import (
 	"bytes"
 	"context"
 	"fmt"
+	"hash/fnv"
 	"os"
 	"os/exec"
 	"path/filepath"
@@ -56,7 +57,7 @@ const preludeCore = `
 
 // string axioms, included when the VC mentions the symbol in the first column
 var strAxioms = []struct{ trigger, text string }{
-	{"slen", `(assert (forall ((s Str)) (! (and (>= (slen s) 0) (<= (slen s) 4611686018427387904)) :pattern ((slen s)))))`},
+	{"slen", `(assert (forall ((s Str)) (! (and (>= (slen s) 0) (<= (slen s) 140737488355328)) :pattern ((slen s)))))`},
 	{"slen", `(assert (= (slen str_empty) 0))`},
 	{"slen", `(assert (forall ((s Str)) (! (=> (= (slen s) 0) (= s str_empty)) :pattern ((slen s)))))`},
 	{"sat", `(assert (forall ((s Str) (i Int)) (! (and (<= 0 (sat s i)) (<= (sat s i) 255)) :pattern ((sat s i)))))`},
@@ -380,12 +381,19 @@ func (e *Engine) discharge(outDir string, timeoutMs int, allSolvers bool, worker
 				}
 				cmu.Unlock()
 				file := filepath.Join(outDir, safeName.ReplaceAllString(j.ob.Name, "_"))
-				if len(file) > 200 {
-					file = file[:200]
+				if len(file) > 190 {
+					file = file[:190]
 				}
-				file = fmt.Sprintf("%s.%d.smt2", file, j.i)
+				// distinct obligations must never share a file (names can collide after sanitising/truncation)
+				hs := fnv.New32a()
+				hs.Write([]byte(j.ob.Name))
+				file = fmt.Sprintf("%s.%08x.%d.smt2", file, hs.Sum32(), j.i)
 				os.WriteFile(file, []byte(text), 0o644)
-				if j.ob.Class == "canary" && !allSolvers {
+				if j.ob.Class == "infer" {
+					// candidates that are not inductive often come back "unknown": a short budget is enough
+					// (an undecided candidate is simply not assumed)
+					e.solveOne(j.vc, file, solverList(1500), 1500, false)
+				} else if j.ob.Class == "canary" && !allSolvers {
 					// vacuity canaries are expected NOT to be provable: give them a short budget
 					e.solveOne(j.vc, file, solverList(1200), 1200, true)
 				} else {
